@@ -807,7 +807,7 @@ int main(int argc, char** argv) {
    signal(SIGSEGV, on_segv); signal(SIGBUS, on_segv); std::set_terminate(on_terminate);
    auto on = [&](int c, bool deflt) { return caps.empty() ? deflt : caps.find("," + std::to_string(c) + ",") != std::string::npos; };
    const bool th = vf::thorough();
-   if (on(1, true)) explore_cap_1(); if (on(2, true)) explore_cap_2(); if (on(3, true)) explore_cap_3(); if (on(4, !th)) explore_cap_4();      // quick: capacities 1..4
+   if (on(1, true)) explore_cap_1(); if (on(2, true)) explore_cap_2(); if (on(3, true)) explore_cap_3(); if (on(4, !th)) explore_cap_4(); if (on(255, !th)) explore_cap_255();     // quick: capacities 1..4 closed + 255 (length-type maximum) one step from seed states
    // the largest search (L=7) runs last, so that a deadline only ever cuts into it
    if (on(4, th)) explore_cap_4(); if (on(5, th)) explore_cap_5(); if (on(255, th)) explore_cap_255(); if (on(256, th)) explore_cap_256(); if (on(7, th)) explore_cap_7();
    vf::finish();
